@@ -7,7 +7,7 @@ from . import common, cons, place, universe, xt
 
 PID = "C01"
 
-PL_ALL = ["default", "ctx", "cap0", "hole", "dirtyhole", "explicit", "explicit-i8", "explicit-al16", "al64", "al2", "ba-hole", "ba-cap0", "grown", "dirtybig"]
+PL_ALL = ["default", "ctx", "cap0", "hole", "dirtyhole", "explicit", "explicit-i8", "explicit-al16", "al16-hole", "al64", "al2", "ba-hole", "ba-cap0", "grown", "dirtybig"]
 PL_DEEP = ["ctx", "dirtyhole", "grown", "ba-hole"]
 
 
@@ -23,7 +23,7 @@ def places_for(tier):
             return ["cap0", "dirtyhole"]
         if form in ("xobj-nested", "xobj-nested-view"):
             return ["dirtyhole", "cap0"]
-        if form in ("xobj-slack", "xobj-capslack"):
+        if form in ("xobj-slack", "xobj-capslack", "xobj-nested-lastslack"):
             return ["dirtybig", "cap0"]
         if form in ("ref-same", "ref-foreign"):
             return ["cap0", "ba-cap0"]
